@@ -404,6 +404,29 @@ func numCorpus(r *rand.Rand, id int, name string, n int, multi bool) *corpus {
 	return cp
 }
 
+// groupEdgeCorpus: values whose sortable integers sit at the edges of the 7-bit groups the
+// terms are made of (…7e, …7f, …00, …01 in the three lowest groups): narrow ranges between
+// neighbours make the term enumeration carry from one group into the next
+func groupEdgeCorpus(r *rand.Rand, id int, name string) *corpus {
+	cp := &corpus{ID: id, Typ: "num", Name: name}
+	edge := []int64{0x7e, 0x7f, 0x00, 0x01}
+	for _, h := range []int64{numeric.Float64ToInt64(1.5) >> 21, numeric.Float64ToInt64(-3.25) >> 21} {
+		for _, a := range edge {
+			for _, b := range edge {
+				for _, c := range edge {
+					i := h<<21 | a<<14 | b<<7 | c
+					f := numeric.Int64ToFloat64(i)
+					if ordinaryFloatBits(math.Float64bits(f)) {
+						cp.Docs = append(cp.Docs, []uint64{math.Float64bits(f)})
+					}
+				}
+			}
+		}
+	}
+	r.Shuffle(len(cp.Docs), func(i, j int) { cp.Docs[i], cp.Docs[j] = cp.Docs[j], cp.Docs[i] })
+	return cp
+}
+
 func dateCorpus(r *rand.Rand, id int, name string, n int, multi, edge bool) *corpus {
 	cp := &corpus{ID: id, Typ: "date", Name: name}
 	anchors := []int64{0, 1, -1, 1_000_000_000, -1_000_000_000, 1_700_000_000_123_456_789, 946684800_000_000_000,
@@ -534,6 +557,7 @@ func buildE2E(c *core.Ctx) (*e2eRecords, error) {
 		numCorpus(r, 2, "num-multi", nDocs, true),
 		dateCorpus(r, 3, "date-core", nDocs, true, false),
 		dateCorpus(r, 4, "date-edge", c.Pick(60, 100), false, true),
+		groupEdgeCorpus(r, 5, "num-group-edges"),
 	}
 	out := &e2eRecords{}
 	for _, cp := range corpora {
